@@ -24,7 +24,7 @@ PLAN = {
     'C18': dict(level='proof', engines=['sumlib', 'multipitchnative', 'matchnative']),
     'C19': dict(level='proof', engines=['sepstruct', 'bundles']),
     'C20': dict(level='proof', engines=['ionative']),
-    'C15': dict(level='proof', engines=['frames'], assumptions=['A3', 'A4', 'A5', 'A6', 'A7']),
+    'C15': dict(level='proof', engines=['frames', 'sepstruct'], assumptions=['A3', 'A4', 'A5', 'A6', 'A7']),
 }
 
 NOT_APPLICABLE = {}
